@@ -44,10 +44,11 @@ const (
 	kIgnoreAtParamChild
 	kIgnoreCloneWith
 	kBrokenWriter
+	kSameQuery
 	nKinds
 )
 
-var kindNames = [...]string{"direct(2 params)", "ignored-slash", "redirect", "404", "405", "OPTIONS", "Lookup+Close", "Lookup+Clone", "handler-CloneWith", "handler-Clone-stash", "hostname-direct", "infix-catch-all", "iterators-left-early", "handler-Lookup-inside", "ignored-slash-Clone-stash", "static-hostname-ignored-slash+Lookup-inside", "two-infix-catch-alls-ignored-slash", "hostname-infix-catch-all-ignored-slash", "405-after-backtracking-in-the-hostname-tree", "no-query-string+handler-adds-a-query-value+Clone-stash", "handler-hijacks-the-connection-before-writing", "ignored-slash-where-the-walk-stops-at-a-parameter-child", "ignored-slash+handler-CloneWith", "client-gone:every-write-of-every-helper-fails"}
+var kindNames = [...]string{"direct(2 params)", "ignored-slash", "redirect", "404", "405", "OPTIONS", "Lookup+Close", "Lookup+Clone", "handler-CloneWith", "handler-Clone-stash", "hostname-direct", "infix-catch-all", "iterators-left-early", "handler-Lookup-inside", "ignored-slash-Clone-stash", "static-hostname-ignored-slash+Lookup-inside", "two-infix-catch-alls-ignored-slash", "hostname-infix-catch-all-ignored-slash", "405-after-backtracking-in-the-hostname-tree", "no-query-string+handler-adds-a-query-value+Clone-stash", "handler-hijacks-the-connection-before-writing", "ignored-slash-where-the-walk-stops-at-a-parameter-child", "ignored-slash+handler-CloneWith", "client-gone:every-write-of-every-helper-fails", "same-query-string-as-other-requests+handler-edits-the-query-values"}
 
 // world is one router plus the bookkeeping of one execution.
 type world struct {
@@ -63,6 +64,8 @@ type reqInfo struct {
 	kind     int
 	observed bool
 	noQuery  bool // the request carries no query string
+	// sameQuery: the request carries the query string "same=1", byte for byte the one of every other request of its kind
+	sameQuery bool
 }
 
 type stashed struct {
@@ -146,6 +149,13 @@ func (w *world) observe(c fox.Context, wantPattern string, wantScope fox.Handler
 			if k != "mark" || len(v) != 1 || v[0] != tok {
 				w.bad("QueryParams() of a request without a query string holds %s=%v", k, v)
 			}
+		}
+	}
+	if w.cur.sameQuery {
+		wantQ = ""
+		// the values of its own query string, whatever an earlier handler did to the values of an equal one
+		if q := c.QueryParams(); len(q) != 1 || c.QueryParam("same") != "1" {
+			w.bad("QueryParams() = %v for the query string same=1", q)
 		}
 	}
 	if c.QueryParam("q") != wantQ || c.QueryParams().Get("q") != wantQ {
@@ -314,6 +324,13 @@ func newWorld(withHost bool) *world {
 			conn.Close()
 		}
 	}))
+	// requests with equal query strings: the handler edits the (per-request) query values after reading them
+	must(f.Handle("GET", "/sq/{a}", func(c fox.Context) {
+		w.observe(c, "/sq/{a}", fox.RouteHandler, []string{"a"}, true)
+		c.QueryParams().Set("same", w.cur.tok)
+		c.QueryParams().Set("extra", w.cur.tok)
+		w.respond(c)
+	}))
 	// the client is gone: every write of every helper fails; nothing of this response may reach a later one
 	must(f.Handle("GET", "/bw/{a}", func(c fox.Context) {
 		w.observe(c, "/bw/{a}", fox.RouteHandler, []string{"a"}, true)
@@ -423,7 +440,9 @@ func newWorld(withHost bool) *world {
 
 func (w *world) req(method, host, path string) *http.Request {
 	r := fx.Req(method, host, path)
-	if !w.cur.noQuery {
+	if w.cur.sameQuery {
+		r.URL.RawQuery = "same=1"
+	} else if !w.cur.noQuery {
 		r.URL.RawQuery = "q=" + w.cur.tok
 	}
 	r.Header.Set("X-Tok", w.cur.tok)
@@ -443,7 +462,7 @@ func (w *world) remoteOf() string {
 func (w *world) issue(kind int) {
 	w.serial++
 	tok := fmt.Sprintf("t%d%c", w.serial, 'A'+kind)
-	w.cur = &reqInfo{tok: tok, kind: kind, noQuery: kind == kNoQueryMark}
+	w.cur = &reqInfo{tok: tok, kind: kind, noQuery: kind == kNoQueryMark, sameQuery: kind == kSameQuery}
 	rw := fx.NewRW()
 	wantObserved := true
 	switch kind {
@@ -486,6 +505,8 @@ func (w *world) issue(kind int) {
 		if len(rw.Body) != 0 {
 			w.bad("a writer that fails every write holds %d body bytes", len(rw.Body))
 		}
+	case kSameQuery:
+		w.f.ServeHTTP(rw, w.req("GET", "", "/sq/"+tok+"a"))
 	case kHandlerLookup:
 		w.f.ServeHTTP(rw, w.req("GET", "", "/hl/"+tok+"a"))
 	case kIgnoreCloneStash:
@@ -817,7 +838,7 @@ func init() {
 	mc.Register(&mc.Check{
 		ID:    "C12",
 		Level: "model_checking",
-		Rule: "every sequence up to a length of requests from a 24-kind alphabet (direct, ignored slash, redirect, 404, 405, OPTIONS, manual Lookup(+Clone), CloneWith, Clone, hostname, infix catch-all, every iterator consumed fully and left at its first element, a handler doing a Lookup for another request, a slash-adjusted match whose handler keeps a Clone, a static-hostname slash-adjusted match whose handler looks up another slash-adjusted request), with an optional tree replacement before each request, x EVERY answer of the context pool at every Pool.Get (any of the pooled contexts or a fresh one: data choice points of the controlled scheduler); every request carries a unique token in every observable field and every Context getter is checked inside every handler; stashed clones are re-read after every later request; " +
+		Rule: "every sequence up to a length of requests from a 25-kind alphabet (direct, ignored slash, redirect, 404, 405, OPTIONS, manual Lookup(+Clone), CloneWith, Clone, hostname, infix catch-all, every iterator consumed fully and left at its first element, a handler doing a Lookup for another request, a slash-adjusted match whose handler keeps a Clone, a static-hostname slash-adjusted match whose handler looks up another slash-adjusted request), with an optional tree replacement before each request, x EVERY answer of the context pool at every Pool.Get (any of the pooled contexts or a fresh one: data choice points of the controlled scheduler); every request carries a unique token in every observable field and every Context getter is checked inside every handler; stashed clones are re-read after every later request; " +
 			"plus two-thread schedules; distinct_nontrivial = distinct (sequence, outcome) classes",
 		Assumptions: []string{
 			"sync.Pool may return any previously Put object or a fresh one: the shim makes that choice explicit and the explorer enumerates it",
